@@ -47,6 +47,33 @@ def gen_nsfix():
     need(re.escape("parent=parent->getParentNode();}m_attributeNamesVisited.clear();}"), cp,
          "copyNamespaceAttributes clears the visited names once, after the ancestor walk")
     facts["copy_ns_walk"] = "visited list kept across the ancestor walk"
+    # ---- variants: which of the repairs K17, KN6, KN7, KN10 the tree has (exactly one of the two shapes each)
+    def variant(text, old_rx, new_rx, what):
+        o, n = re.search(old_rx, text, re.S) is not None, re.search(new_rx, text, re.S) is not None
+        if o == n:
+            raise AnchorError("neither/both shapes recognised: " + what)
+        return n
+    ee = _sq(function_body(read("XSLT/ElemElement.cpp"), r"ElemElement::startElement\s*\([^)]*\)\s*const\s*\{", "ElemElement::startElement"))
+    facts["kn6_fixed"] = variant(ee,
+        re.escape("equals(prefix,DOMServices::s_XMLNamespace)==false){elemNameSpace=*theNamespace;}"),
+        re.escape("equals(prefix,DOMServices::s_XMLNamespace)==false){if(m_namespaceAVT==0){elemNameSpace=*theNamespace;}else{elemName.erase(0,indexOfNSSep+1);havePrefix=false;}}"),
+        "ElemElement::startElement: declared prefix with namespace=\"\"")
+    gn = _sq(function_body(read("XSLT/NamespacesHandler.cpp"), r"NamespacesHandler::getNamespace\s*\([^)]*\)\s*const\s*\{", "NamespacesHandler::getNamespace"))
+    facts["kn7_fixed"] = variant(gn,
+        r"^\{constNamespacesVectorType::value_type\*theNamespace=findByPrefix\(m_excludedResultPrefixes,thePrefix\);if\(theNamespace!=0\)\{return&theNamespace->getURI\(\);\}else\{returnfindNamespace\(m_namespaceDeclarations,thePrefix\);\}\}$",
+        r"^\{constXalanDOMString\*consttheURI=findNamespace\(m_namespaceDeclarations,thePrefix\);if\(theURI!=0\)\{returntheURI;\}else\{",
+        "NamespacesHandler::getNamespace: order of the two lists")
+    ea = _sq(function_body(read("XSLT/ElemAttribute.cpp"), r"ElemAttribute::startElement\s*\([^)]*\)\s*const\s*\{", "ElemAttribute::startElement"))
+    facts["kn10_fixed"] = variant(ea,
+        re.escape("equals(*theNamespace,attrNameSpace)==false&&executionContext.isPendingResultPrefix(newPrefix)==true)"),
+        re.escape("equals(*theNamespace,attrNameSpace)==false&&(executionContext.isPendingResultPrefix(newPrefix)==true||isAttributeSetMember(*this)==true))"),
+        "ElemAttribute::startElement: when a supplied prefix bound to another namespace is given up")
+    ar = _sq(function_body(eng, r"XSLTEngineImpl::addResultAttribute\s*\(\s*AttributeListImpl&[^)]*\)\s*\{", "XSLTEngineImpl::addResultAttribute"))
+    facts["k17_fixed"] = variant(ar,
+        re.escape("if(fExcludeAttribute==false){attList.addAttribute(aname.c_str(),"),
+        re.escape("findAttributeWithSameExpandedName(*this,*m_executionContext,attList,aname);if(theOther!=0){theName=theOther;}}if(fExcludeAttribute==false){attList.addAttribute(theName,"),
+        "XSLTEngineImpl::addResultAttribute: the name the attribute is stored under")
+    b = lambda x: "true" if x else "false"
     out = HEADER
     out += "(* facts of the namespace fix-up code (translator/gen_nsfix.py) *)\n"
     out += "From Coq Require Import NArith.\n"
@@ -55,6 +82,11 @@ def gen_nsfix():
     out += "Definition unique_loops_while_bound : bool := true.\n"
     out += "Definition copy_ns_visited_kept_across_ancestors : bool := true.\n"
     out += "Definition xmlns_xml_never_written : bool := true.  (* s_XMLNamespacePrefix == \"xmlns:xml\" *)\n"
+    out += "(* which repairs the tree has; the model and its theorems are written for both values *)\n"
+    out += "Definition k17_fixed : bool := %s.   (* addResultAttribute identifies an attribute by its expanded name *)\n" % b(facts["k17_fixed"])
+    out += "Definition kn6_fixed : bool := %s.   (* xsl:element name=\"p:e\" namespace=\"\" drops the declared prefix *)\n" % b(facts["kn6_fixed"])
+    out += "Definition kn10_fixed : bool := %s.  (* xsl:attribute in an attribute set never re-binds a prefix that is in scope *)\n" % b(facts["kn10_fixed"])
+    out += "Definition kn7_fixed : bool := %s.   (* NamespacesHandler::getNamespace: own declarations before inherited excluded prefixes (generator only) *)\n" % b(facts["kn7_fixed"])
     return out, facts
 
 
